@@ -1077,9 +1077,26 @@ def j_rules(p: Project, rep: Report):
     rep.check("J-R2", "_acctIsActive:svcstatus==ACTIVE", ok, f"_acctIsActive returns {got}: accounts that are not ACTIVE (PEND, AVAIL) are requested with --all" if not ok else "", gloc(p, act0))
     n_collect = 0
     ID_ATTRS = ("acctid", "bankid", "brokerid")
+    # the ACTIVE test by any name: module-level one-parameter functions that return exactly `<param>.svcstatus == 'ACTIVE'`
+    active_preds = {"_acctIsActive"} if ok else set()
+    for st_ in p.module(OFXGET).tree.body:
+        if isinstance(st_, ast.FunctionDef) and len(st_.args.args) == 1 and st_.name != "_acctIsActive":
+            try:
+                f_ = flat(p, OFXGET, st_, keep=("_acctIsActive",))
+                rp_, _ = return_paths(f_, None, Expander(f_))
+                vals_ = sorted({text(norm(ast.parse(v_, mode="eval").body)).replace('"', "'") for _q, v_, _c in rp_})
+            except Exception:
+                continue
+            a_ = st_.args.args[0].arg
+            if vals_ == [f"{a_}.svcstatus == 'ACTIVE'"] or (ok and vals_ == [f"_acctIsActive({a_})"]):
+                active_preds.add(st_.name)
+
+    def _is_active_call(t_, rv_):
+        return any(t_ == f"{pr_}({rv_})" for pr_ in active_preds)
+
     for fname in ("parse_bankacctinfos", "parse_invacctinfos", "parse_ccacctinfos"):
         fn0 = _fn(p, fname)
-        fn = flat(p, OFXGET, fn0, keep=("_acctIsActive",))
+        fn = flat(p, OFXGET, fn0, keep=tuple(active_preds) or ("_acctIsActive",))
         prm = params_of(fn)[0]
         ex = Expander(fn)
         views = list(loop_views(fn))
@@ -1090,16 +1107,18 @@ def j_rules(p: Project, rep: Report):
             v = getattr(st, "value", None)
             if isinstance(tgt, ast.Name) and isinstance(v, (ast.ListComp, ast.GeneratorExp)) and len(v.generators) == 1:
                 g = v.generators[0]
-                if text(g.iter) == prm and isinstance(g.target, ast.Name) and text(v.elt) == g.target.id and [text(i) for i in g.ifs] == [f"_acctIsActive({g.target.id})"]:
+                if text(g.iter) == prm and isinstance(g.target, ast.Name) and text(v.elt) == g.target.id and len(g.ifs) == 1 and _is_active_call(text(g.ifs[0]), g.target.id):
                     if len(local_defs(fn).get(tgt.id, [])) == 1:
                         active_lists.add(tgt.id)
-            if isinstance(tgt, ast.Name) and isinstance(v, ast.Call) and text(v.func) in ("list", "tuple") and len(v.args) == 1 and isinstance(v.args[0], ast.Call) and text(v.args[0].func) == "filter" and len(v.args[0].args) == 2 and text(v.args[0].args[0]) == "_acctIsActive" and text(v.args[0].args[1]) == prm:
+            if isinstance(tgt, ast.Name) and isinstance(v, ast.Call) and text(v.func) in ("list", "tuple") and len(v.args) == 1 and isinstance(v.args[0], ast.Call) and text(v.args[0].func) == "filter" and len(v.args[0].args) == 2 and text(v.args[0].args[0]) in active_preds and text(v.args[0].args[1]) == prm:
                 if len(local_defs(fn).get(tgt.id, [])) == 1:
                     active_lists.add(tgt.id)
         sliced = False
         for lv in views:
             it = text(lv.iter)
             src = "all" if it == prm else ("active" if it in active_lists else None)
+            if src is None and isinstance(lv.iter, ast.Call) and text(lv.iter.func) == "filter" and len(lv.iter.args) == 2 and text(lv.iter.args[0]) in active_preds and text(lv.iter.args[1]) == prm:
+                src = "active"  # for x in filter(<ACTIVE test>, <records>)
             if isinstance(lv.iter, ast.Subscript) and text(lv.iter.value) == prm:
                 sliced = True
             tn = lv.target_names
@@ -1129,10 +1148,10 @@ def j_rules(p: Project, rep: Report):
                     label = f"{fname}:{hit[0]}:only-if-active"
                     if src == "active":
                         rep.check("J-R2", label, True, "", gloc(p, e))
-                    elif (f"bool(_acctIsActive({rv}))", True) in item.filters:
+                    elif any((f"bool({pr_}({rv}))", True) in item.filters for pr_ in active_preds):
                         # ... and under nothing MORE than that: another test of the record (SUPTXDL, XFERSRC ...) leaves
                         # ACTIVE accounts out - the property asks for exactly the ACTIVE ones
-                        extra = [f_ for f_ in item.filters if f_ != (f"bool(_acctIsActive({rv}))", True) and re.search(rf"\b{re.escape(rv)}\b", f_[0])]
+                        extra = [f_ for f_ in item.filters if not any(f_ == (f"bool({pr_}({rv}))", True) for pr_ in active_preds) and re.search(rf"\b{re.escape(rv)}\b", f_[0])]
                         rep.check("J-R2", label, not extra, f"{et} is collected only if, besides being ACTIVE, `{extra[0][0][:50]}` is {extra[0][1]}: an ACTIVE account that fails this further test is left out of `--all` (statements AND closing statements)" if extra else "", gloc(p, e))
                     elif item.complex:
                         rep.note(f"J-R2 undecided: {fname} collects {et} under a condition that is not a plain conjunction")
